@@ -16,7 +16,11 @@ RULE = ("real histories (about 35 operations each after an initial sync) over a 
         "Compact(1)), Store.EnforceSnapshotRetention (cascade), Store.SetRetentionEnabled, os.Chtimes on replica files. "
         "'aged' histories re-stamp 85% of new files with one of 12 injected ages and draw thresholds from the same scale "
         "(older / equal / newer; clock-relative thresholds land half a unit after an age), 'real' histories keep the "
-        "header timestamps of the real clock and use thresholds at / 1 ms around existing stamps. Times are emitted as "
+        "header timestamps of the real clock and use thresholds at / 1 ms around existing stamps. In the C07 focus every third history starts with a directed scenario: "
+        "2-3 snapshots whose ages are placed in EVERY order relative to the threshold (all 4 + 8 subsets expired, not only "
+        "TXID prefixes; all 12 within 36 histories), all L0 files aged and trimmed behind L1 by L0 retention, then "
+        "Store.EnforceSnapshotRetention (or DB.EnforceSnapshotRetention + the cascade by hand with the returned floor). "
+        "Times are emitted as "
         "ranks. Cases: store_run (listing per level with CreatedAt after every operation, status, returned floor = model); "
         "store_inv_ok (RInv (i)-(v) of C07 and, before the first retention pass, levels_contiguous of C06 on every "
         "observed listing); store_ts_plan (CalcRestorePlan over the file client for T at / +-1 ms around / between all "
